@@ -1,5 +1,8 @@
 import Lean.Data.Json
 import AFModel.Ident
+import AFModel.IdentComp
+import AFModel.IdentJoin
+import AFModel.IdentSearch
 import AFDriver.Wire
 
 open Lean (Json)
@@ -50,7 +53,111 @@ partial def parsePyVal (j : Json) : Except String PyVal := do
       pure (.iter (← arr.toList.mapM parsePyVal))
   | s => throw s!"bad pyval {s}"
 
+def parseMeta (j : Json) : Except String Meta := do
+  let id ← match j.getObjVal? "id" with
+    | .ok v => v.getNat?
+    | _ => pure 0
+  let label ← match j.getObjVal? "label" with
+    | .ok (Json.str s) => pure (some s)
+    | _ => pure none
+  let asserts ← match j.getObjVal? "asserts" with
+    | .ok (Json.arr a) => a.toList.mapM (·.getStr?)
+    | _ => pure []
+  pure ⟨id, label, asserts⟩
+
+def priorKindOf : String → Except String PriorKind
+  | "uniform" => pure .uniform
+  | "logUniform" => pure .logUniform
+  | "gaussian" => pure .gaussian
+  | "logGaussian" => pure .logGaussian
+  | s => throw s!"bad prior kind {s}"
+
+/-- a composition as the identifier meets it (`harness/c07_comp.py: cnode_of`) -/
+partial def parseCNode (j : Json) : Except String CNode := do
+  let k ← (j.getObjVal? "k") >>= (·.getStr?)
+  let bits (key : String) : Except String UInt64 := do
+    match j.getObjVal? key with
+    | .ok (Json.str h) =>
+      match AF.Wire.floatOfHex h with
+      | some f => pure f.toBits
+      | none => throw s!"bad float {h}"
+    | _ => pure 0
+  let attrs (key : String) : Except String (List (String × CNode)) := do
+    let arr ← (j.getObjVal? key) >>= (·.getArr?)
+    arr.toList.mapM fun a => do
+      let pair ← a.getArr?
+      if pair.size != 2 then throw "bad attr"
+      pure ((← pair[0]!.getStr?), (← parseCNode pair[1]!))
+  let nats (v : Json) : Except String (List Nat) := do (← v.getArr?).toList.mapM (·.getNat?)
+  let str (key : String) : Except String String := (j.getObjVal? key) >>= (·.getStr?)
+  match k with
+  | "prior" =>
+      pure (.prior (← parseMeta j) (← priorKindOf (← str "kind")) (← bits "lo") (← bits "hi") (← bits "mean") (← bits "sigma"))
+  | "flt" => pure (.flt (← bits "v"))
+  | "int" => pure (.int (← (j.getObjVal? "v") >>= (·.getInt?)))
+  | "bool" => pure (.bool (← (j.getObjVal? "v") >>= (·.getBool?)))
+  | "str" => pure (.str (← str "v"))
+  | "none" => pure .none
+  | "model" => pure (.model (← parseMeta j) (← str "path") (← attrs "attrs"))
+  | "coll" => pure (.coll (← parseMeta j) (← (j.getObjVal? "item_number") >>= (·.getNat?)) (← attrs "attrs"))
+  | "tuple" => pure (.tuple (← parseMeta j) (← attrs "attrs"))
+  | "arith" =>
+      pure (.arith (← parseMeta j) (← AF.Wire.binOpOf (← str "op")) (← str "ln") (← str "rn")
+        (← parseCNode (← j.getObjVal? "l")) (← parseCNode (← j.getObjVal? "r")))
+  | "modif" =>
+      pure (.modif (← parseMeta j) (← AF.Wire.unOpOf (← str "op")) (← str "name") (← parseCNode (← j.getObjVal? "x")))
+  | "array" =>
+      let ix ← (← (j.getObjVal? "indices") >>= (·.getArr?)).toList.mapM nats
+      pure (.array (← parseMeta j) (← nats (← j.getObjVal? "shape")) ix (← attrs "attrs"))
+  | "inst" =>
+      pure (.inst (← str "cls") (← (← (j.getObjVal? "ctor") >>= (·.getArr?)).toList.mapM (·.getStr?)) (← attrs "dict"))
+  | "minst" => pure (.minst (← parseMeta j) (← attrs "attrs"))
+  | "seq" => pure (.seq (← (← (j.getObjVal? "items") >>= (·.getArr?)).toList.mapM parseCNode))
+  | s => throw s!"bad cnode {s}"
+
+def strArr (l : List String) : Json := Json.arr (l.map Json.str).toArray
+
+/-- `{"kind":"comp","node":…[,"search":pyval][,"tag":str]}`: the reflection route and the closed form of
+    the composition's tokens, the tokens of the fit `[search, model(, tag)]`, the prior ids at the places -/
+def handleC07Comp (j : Json) : Except String Json := do
+  let t ← parseCNode (← j.getObjVal? "node")
+  let base := [("tokens", strArr (tokens (reflect t))), ("ctokens", strArr (ctokens t)),
+               ("prior_ids", Json.arr (t.priorIds.map (fun n => Json.num (Lean.JsonNumber.fromNat n))).toArray)]
+  match j.getObjVal? "search" with
+  | .ok sj =>
+      let s ← parsePyVal sj
+      let tag ← match j.getObjVal? "tag" with
+        | .ok (Json.str x) => pure (some x)
+        | _ => pure none
+      pure (Json.mkObj (base ++ [("fit", strArr (tokens (fitVal s t tag)))]))
+  | _ => pure (Json.mkObj base)
+
+/-- `{"kind":"join","tokens":[…]}`: the hashed text and the dot-free pieces of a token list -/
+def handleC07Join (j : Json) : Except String Json := do
+  let ts ← (← (j.getObjVal? "tokens") >>= (·.getArr?)).toList.mapM (·.getStr?)
+  pure (Json.mkObj [("joined", Json.str (joinTokens ts)), ("pieces", strArr (tokenPieces ts)),
+    ("dotfree", Json.bool (ts.all (fun t => dotFree t.toList)))])
+
+/-- `{"kind":"search","cls":name,"settings":[[name, pyval]…]}`: tokens of a search of a class of the generated table -/
+def handleC07Search (j : Json) : Except String Json := do
+  let name ← (j.getObjVal? "cls") >>= (·.getStr?)
+  let arr ← (j.getObjVal? "settings") >>= (·.getArr?)
+  let settings ← arr.toList.mapM fun a => do
+    let pair ← a.getArr?
+    if pair.size != 2 then throw "bad setting"
+    pure ((← pair[0]!.getStr?), (← parsePyVal pair[1]!))
+  match lookupRow name with
+  | none => pure (Json.mkObj [("known", Json.bool false)])
+  | some row =>
+      pure (Json.mkObj [("known", Json.bool true), ("tokens", strArr (tokens (searchVal row (settingsOf settings)))),
+        ("idf", strArr row.idf), ("others", strArr row.others)])
+
 def handleC07 (j : Json) : Except String Json := do
+  match j.getObjVal? "kind" with
+  | .ok (Json.str "search") => handleC07Search j
+  | .ok (Json.str "comp") => handleC07Comp j
+  | .ok (Json.str "join") => handleC07Join j
+  | _ =>
   let v ← parsePyVal (← j.getObjVal? "val")
   let ts := tokens v
   pure (Json.mkObj [("tokens", Json.arr (ts.map Json.str).toArray), ("joined", Json.str (joinTokens ts))])
